@@ -137,17 +137,22 @@ func StreamMutationsForVersion(w io.Writer, versionID, dataID dvid.UUID) error {
 		if err == io.EOF {
 			break
 		}
+		if err != nil {
+			// an incomplete or corrupt record: nothing after it can be trusted
+			dvid.Criticalf("stopped reading mutation log for data %s, version %s: %v\n", dataID, versionID, err)
+			break
+		}
+		if typeID != jsonMsgTypeID {
+			dvid.Criticalf("Unknown message type in mutation log: %s\n", string(jsondata))
+			continue
+		}
 		if numMutations != 0 {
 			if _, err := w.Write([]byte(",")); err != nil {
 				return err
 			}
 		}
-		if typeID != jsonMsgTypeID {
-			dvid.Criticalf("Unknown message type in mutation log: %s\n", string(jsondata))
-		} else {
-			if _, err := w.Write(jsondata); err != nil {
-				return err
-			}
+		if _, err := w.Write(jsondata); err != nil {
+			return err
 		}
 		numMutations++
 	}
@@ -212,6 +217,11 @@ func sendVersionMutations(ch chan []byte, uuid, dataID dvid.UUID) (numMutations 
 	for {
 		typeID, jsondata, err := r.Next()
 		if err == io.EOF {
+			break
+		}
+		if err != nil {
+			// an incomplete or corrupt record: nothing after it can be trusted
+			dvid.Criticalf("stopped reading mutation log for data %s: %v\n", dataID, err)
 			break
 		}
 		if typeID != jsonMsgTypeID {
